@@ -1,17 +1,17 @@
 #!/bin/bash
-# usage: store_seed.sh <prop> <name>   — confirm /tmp/r6/<prop>/out as seeded/<name>, write meta.json, drop the worktree
+# usage: store_seed.sh <prop> <name>   — confirm /tmp/r7/<prop>/out as seeded/<name>, write meta.json, drop the worktree
 prop=$1; name=$2
 mkdir -p /tmp/seed/${prop}-scratch
-/verif/tools/confirm_seed.sh $name /tmp/r6/$prop/out/patch.diff /tmp/r6/$prop/out/demo $prop 2>&1 | tail -1 | tee /tmp/r6/$prop/confirm.txt
-if grep -q "^CONFIRMED" /tmp/r6/$prop/confirm.txt; then
+/verif/tools/confirm_seed.sh $name /tmp/r7/$prop/out/patch.diff /tmp/r7/$prop/out/demo $prop 2>&1 | tail -1 | tee /tmp/r7/$prop/confirm.txt
+if grep -q "^CONFIRMED" /tmp/r7/$prop/confirm.txt; then
 python3 - "$prop" "$name" <<'PY'
 import json, sys
 prop, name = sys.argv[1:3]
-notes = json.load(open('/tmp/r6/%s/out/notes.json' % prop))
+notes = json.load(open('/tmp/r7/%s/out/notes.json' % prop))
 m = {"id": name, "property": prop, "summary": notes["summary"], "needs": notes["needs"],
      "ran": "tools/confirm_seed.sh: go build ./... and go test -count=1 ./... pass with the change; demo/run.sh exits non-zero with it and 0 without (see confirm.log)",
      "origin": "round 3: independent sub-agent given only the property text and a scratch worktree"}
 json.dump(m, open('/verif/seeded/%s/meta.json' % name, 'w'), indent=1)
 PY
-git -C /repo worktree remove --force /tmp/r6/$prop/wt 2>/dev/null
+git -C /repo worktree remove --force /tmp/r7/$prop/wt 2>/dev/null
 fi
